@@ -68,7 +68,7 @@ def kernel(w, rep, fn, true_name="labels", pred_name="preds"):
     return li, ("idx", li.domain[2][kt], pos), ("idx", li.domain[2][1 - kt], pos), pre
 
 
-from ..ir import mk_cmp, tkey  # noqa: E402
+from ..ir import mk_cmp, subterms, tkey  # noqa: E402
 from ..rules_premise import values_of  # noqa: E402
 
 
@@ -230,6 +230,8 @@ def check_per_label(rep, repo):
     fi = repo.need_function(GEN, "opf_accuracy_per_label")
     w = Walker(repo, fi, inline=inline_same_module_private(fi))
     _scalar_fragment(w, fi)
+    from ..rules_premise import values_view
+    w = values_view(w)
     k = kernel(w, rep, fi)
     if not k:
         return
@@ -272,6 +274,12 @@ def check_purity(rep, repo):
     ok = False
     if len(rets) == 1:
         cm = ("call", ("mod", "opfython.math.general.confusion_matrix"), (("param", "labels"), ("param", "preds")), ())
+        # (an optional class count the documented signature does not have, handed on at its default)
+        v0 = rets[0].value
+        for t in subterms(v0):
+            if t[0] == "call" and t[1] == cm[1] and t[2][:2] == cm[2] and all(x == ("const", None) for x in t[2][2:]) \
+                    and all(v == ("const", None) for _, v in t[3]):
+                cm = t
         for mx in ("numpy.max", "numpy.amax"):
             inner = ("call", ("mod", mx), (cm,), (("axis", ("const", 0)),))
             want = ("bin", "/", ("call", ("mod", "numpy.sum"), (inner,), ()),
